@@ -886,6 +886,10 @@ Definition sext (n x : Z) : Z := if x <? 2 ^ (n - 1) then x else x - 2 ^ n.
         sa, _ = emd.emit(P(tokenize(a2)).parse_expr(), envd, 'isize')
         margs.append(sa)
     s = HEADER % "src/utils.rs (dispose_general_node, increment paths)" + "Require Import Params StateW ModularW.\n\n"
+    m_age = re.fullmatch(r"\s*curr_epoch as isize - (\d+)\s*", m_cond.group(3))
+    if not m_age:
+        raise TranslateError("reclaim threshold has an unexpected shape: %s" % m_cond.group(3))
+    s += "Definition RECLAIM_AGE : Z := %s.\n" % m_age.group(1)
     s += "Definition DEPTH_CAP : Z := %s.\n" % m_cap.group(1)
     s += "Definition REPIN_EVERY : Z := %s.\n" % m_rep.group(1)
     s += "Definition ROOT_ALWAYS : bool := %s.\n" % root_always
